@@ -200,15 +200,38 @@ def layoutT (expand : Bool) (v vp : RowsArg α n) (entry : Nat → Nat → PRBM 
 def gammaGradT (r : PRBM α n h a) (sgn : α) (expand : Bool) (v vp : RowsArg α n) : Except PyErr (FT α) :=
   layoutT expand v vp (fun i j => gammaGrad r sgn (v.row i) (vp.row j))
 
+/-- entry `r` of the row-major `view(-1)` of the `(a, n)` block `U` of a record -/
+def uEntry (g : PRBM α n h a) (r : Nat) : α :=
+  if hr : r < a * n then
+    g.U ⟨r / n, Nat.div_lt_of_lt_mul (by rw [Nat.mul_comm n a]; exact hr)⟩
+      ⟨r % n, Nat.mod_lt _ (Nat.pos_of_ne_zero (by intro h0; subst h0; simp at hr))⟩
+  else 0
+
+/-- `pi_grad(v, vp, phase=True, expand=False)` with ONE row in `v` and `B' ≠ 1` rows in `vp`, as coded: with `phase` every
+block except `U` is a `zeros_like(…).expand(1, …)`, so nothing stops `U_grad.view(1, -1)` from flattening the `(B', a, n)`
+tensor of the broadcast pairs `(v_0, vp_j)` into ONE row: the call is ACCEPTED and returns shape `(1, h·n + B'·a·n + n + h + a)`
+(not a per-pair layout; no caller in the library does this). -/
+def piGradOddT [LT α] [DecidableLT α] (am ph : PRBM α n h a) (v vp : RowsArg α n) (sel : CPRBM α n h a → PRBM α n h a) : FT α :=
+  let t : FT α := ⟨[1, h * n + vp.B * (a * n) + n + h + a], fun idx =>
+    let q := idx.getD 1 0
+    if q < h * n then 0
+    else if q - h * n < vp.B * (a * n) then
+      uEntry (sel (piGradNoExpand am ph true (v.row 0) (vp.row ((q - h * n) / (a * n))))) ((q - h * n) % (a * n))
+    else 0⟩
+  if v.isOne || vp.isOne then t.squeeze0 else t
+
 section
 variable [LT α] [DecidableLT α]
 /-- `DensityMatrix.pi_grad(v, vp, phase, expand)`: (real part, imaginary part) of the returned complex tensor; the
-`expand=False` branch evaluates the sigmoid at `mixing_term(v ± vp)` (`piGradNoExpand`) -/
+`expand=False` branch evaluates the sigmoid at `mixing_term(v ± vp)` (`piGradNoExpand`). Where the common layout is refused
+(`expand=False`, batch sizes that neither agree nor broadcast onto `v`'s) the call with `phase=True` and a one-row `v` still
+goes through (`piGradOddT`); every other such call ends in the `RuntimeError` of the broadcast / of `torch.cat`. -/
 def piGradT (am ph : PRBM α n h a) (phase expand : Bool) (v vp : RowsArg α n) : Except PyErr (FT α × FT α) :=
   let f := fun i j => if expand then piGrad am ph phase (v.row i) (vp.row j) else piGradNoExpand am ph phase (v.row i) (vp.row j)
   match layoutT expand v vp (fun i j => (f i j).1), layoutT expand v vp (fun i j => (f i j).2) with
   | .ok re, .ok im => .ok (re, im)
-  | .error e, _ => .error e
+  | .error e, _ =>
+    if phase && v.B == 1 then .ok (piGradOddT am ph v vp Prod.fst, piGradOddT am ph v vp Prod.snd) else .error e
   | _, .error e => .error e
 end
 
